@@ -247,7 +247,8 @@ Definition dq_tstep (_ : unit) (t : nat) (g : dq_shared) (l : dq_local) : dq_sha
       else resume g l k
   end.
 
-(* ---- what the lock-step controller sees before a step: (kind, function, node) ---- *)
+(* ---- what the lock-step controller sees before a step: (kind, function, x) where x is the node
+   accessed (kinds 2,5,6,7,9) or the tag of the anchor snapshot in hand (kinds 4 and 8) ---- *)
 Definition fn_push (s : side) : nat := match s with SL => 1%nat | SR => 2%nat end.
 Definition fn_pop (s : side) : nat := match s with SL => 3%nat | SR => 4%nat end.
 Definition fn_stab (s : side) : nat := match s with SL => 5%nat | SR => 6%nat end.
@@ -264,18 +265,18 @@ Definition dq_obs (l : dq_local) : nat * nat * addr :=
   | PInit _ _ n => ob 2 (0) (n)
   | PLoad s _ => ob 3 (fn_push s) (0)
   | PStore s n _ => ob 6 (fn_push s) (n)
-  | PCas s _ _ _ => ob 8 (fn_push s) (0)
+  | PCas s _ lrs _ => ob 8 (fn_push s) (atag lrs)
   | QLoad s => ob 3 (fn_pop s) (0)
-  | QChk s _ => ob 4 (fn_pop s) (0)
+  | QChk s lrs => ob 4 (fn_pop s) (atag lrs)
   | QLink s lrs => ob 5 (fn_pop s) (aend s lrs)
-  | QCas s _ _ => ob 8 (fn_pop s) (0)
+  | QCas s lrs _ => ob 8 (fn_pop s) (atag lrs)
   | QFree s a => ob 9 (fn_pop s) (a)
   | S1 _ s lrs => ob 5 (fn_stab s) (aend s lrs)
-  | S2 _ s _ _ => ob 4 (fn_stab s) (0)
+  | S2 _ s lrs _ => ob 4 (fn_stab s) (atag lrs)
   | S3 _ s _ prev => ob 5 (fn_stab s) (lptr prev)
-  | S4 _ s _ _ _ _ => ob 4 (fn_stab s) (0)
+  | S4 _ s lrs _ _ _ => ob 4 (fn_stab s) (atag lrs)
   | S5 _ s _ prev _ _ => ob 7 (fn_stab s) (lptr prev)
-  | S6 _ s _ => ob 8 (fn_stab s) (0)
+  | S6 _ s lrs => ob 8 (fn_stab s) (atag lrs)
   end.
 
 Definition dq_done (l : dq_local) : bool :=
